@@ -41,6 +41,9 @@ CHECKS = {
  "C09": dict(cat="model_checking", design="DESIGN.md section 5 C09",
    technique="TLA+ spec Linker.tla: the linker's single pass over a name-sorted stack modelled action by action and compared by TLC with the declarative meaning Expand for every COMPONENTS OF topology and EVERY order of the definition names; parameter product MC_C09.tla for the other notations; every case compiled as written and hand-expanded by the real compiler; traces validated by TLC (deviations = the model's predicted wrong answer on the model's deviation classes)",
    text="For COMPONENTS OF, TLC explores all topologies of 3 (thorough 4) SEQUENCE definitions under all name orders, proves that the (repaired) algorithm is name-independent and differs from Expand exactly on the position class, refutes the pre-repair algorithm, and every case is replayed: the compiler must produce Expand's component list, or exactly the model's prediction on a deviation class, with bindings equal to the hand-expanded module's. Parameterized types (1..3 type/value parameters, 1..3 instantiations), selection types, class field types, value references and named numbers in constraints are enumerated as a parameter product, each with the referenced name sorting before and after its user, and compared with their hand-expanded twin."),
+ "C13": dict(cat="model_checking", design="DESIGN.md section 5 C13",
+   technique="TLA+ spec Layout.tla: gap grammar as generator, X.680 12.6 comment scanner as automaton, TLC checks every generated gap is consumed exactly; plans (gap form x adjacent token classes) from the model; real compiler run on re-laid-out inputs; results validated by TLC (Trace_C13.tla)",
+   text="TLC checks on all gaps of the gap grammar up to 9 symbols that the comment scanner consumes a gap completely and stops at the next token, and that each of the 16 substituted gap forms is such a gap; it emits one plan per applicable (form, left token class, right token class). For each plan up to three boundaries of that class pair in generated module sets are re-laid out one at a time; additionally every boundary at once per form and seeded random subsets, on generated module sets and on real-world modules (after a tokenizer self-check). Status and bindings (doc attributes removed) must equal the original's."),
 }
 
 NOT_BUILT = "check not built yet (DESIGN.md section 13 build order)"
